@@ -582,6 +582,16 @@ def graft(ctx, rec):
     if not np.isfinite(npg) or not np.isfinite(nu):
       ctx.ev('graft_norm', 'vacuous')
       continue
+    # float32 range (same guard as the one-step refinement): the
+    # implementation's squared norm of the preconditioned gradient, or an
+    # intermediate of the root application, overflows / underflows where the
+    # float64 model is finite, and the grafting multiplier becomes 0 or inf
+    if pg.size and (npg * npg > 1e37 or (0 < npg * npg < 1e-30) or
+                    _max_intermediate(cfg, leaf, g, rts) > 1e37):
+      ctx.probe('f32_range_exceeded')
+      ctx.ev('graft_norm', 'vacuous')
+      ctx.ev('graft_dir', 'vacuous')
+      continue
     if gt == 0:
       # no grafting: the step is the preconditioned gradient itself
       want = -scale_out * pg
